@@ -1,12 +1,17 @@
 import FP.Model.Wrapper
+import FP.Spec.Box
 import FP.Proofs.Wrapper
+import FP.Proofs.WrapperObj
+import FP.Proofs.WrapperObjRead
 /-!
 # C12 — MILP building blocks encode exactly the relation they name
 
-Property theorems only; the proofs are in `FP/Proofs/Wrapper.lean`.
+Property theorems only; the proofs are in `FP/Proofs/Wrapper.lean` (helpers, queued bounds),
+`FP/Proofs/WrapperObj.lean` (objective replacement) and `FP/Proofs/WrapperObjRead.lean` (solve of a box model,
+`get_values`, freshness of the read-back).
 -/
 namespace FP.Props.C12
-open FP
+open FP FP.Spec
 
 /-- **binary × continuous.** For a binary value of `b` and `lb ≤ c ≤ ub` the four McCormick rows
 hold iff `p = b·c` — every admissible pair is allowed and every other product value excluded. -/
@@ -101,7 +106,39 @@ theorem flush_lb_wrong_field_witness :
     (flush .lower { cols := [{ lb := 0, ub := 5, cost := 0 }], pendingLb := [(0, 2)] }).cols
       = [{ lb := 2, ub := 0, cost := 0 }] := by decide
 
-/-- a replaced objective fully replaces the previous one -/
+/-! ### objective: costs, constant (offset), sense -/
+
+/-- **a replaced objective fully replaces the previous one** (full strength, over histories): whatever
+happened before the last `set_objective(terms, const, sense)` of a history and whatever follows it (queued bound
+changes, new variables, solves), the objective constant is `const` (`0` when the expression has no constant
+term), the sense is the requested one, and every column that existed at that call has the cost the expression
+asks for (`0` if it does not occur in it) while every column created later has cost `0`. Nothing of an earlier
+objective enters the right-hand sides. -/
+theorem set_objective_replaces (f : GetColsField) (pre post : List WOp) (ts : List (Nat × Rat))
+    (c : Option Rat) (mx : Bool) (hpost : ∀ o ∈ post, o.isSetObjective = false) :
+    let s := wrun f (pre ++ WOp.setObjective ts c mx :: post)
+    s.offset = offsetOf c ∧ s.maximize = mx ∧
+    ∀ i (hi : i < s.cols.length), s.cols[i].cost =
+      if i < (wrun f pre).cols.length then termCost ts i else 0 :=
+  FP.wobj_set_objective_replaces f pre post ts c mx hpost
+
+/-- `changeObjectiveOffset(expr.constant or 0.0)` -/
+theorem offsetOf_spec (q : Rat) : offsetOf none = 0 ∧ offsetOf (some q) = q := ⟨rfl, rfl⟩
+
+/-- a history without any `set_objective`: all costs `0`, constant `0`, minimisation -/
+theorem no_objective (f : GetColsField) (ops : List WOp) (hops : ∀ o ∈ ops, o.isSetObjective = false) :
+    let s := wrun f ops
+    s.offset = 0 ∧ s.maximize = false ∧ ∀ i (hi : i < s.cols.length), s.cols[i].cost = 0 :=
+  FP.wobj_no_objective f ops hops
+
+/-- corollary: two `set_objective` calls in a row leave the state of the second alone (costs, constant, sense) -/
+theorem set_objective_twice (f : GetColsField) (s : WState) (t1 t2 : List (Nat × Rat))
+    (c1 c2 : Option Rat) (m1 m2 : Bool) :
+    wstep f (wstep f s (.setObjective t1 c1 m1)) (.setObjective t2 c2 m2)
+      = wstep f s (.setObjective t2 c2 m2) :=
+  FP.wobj_set_objective_twice f s t1 t2 c1 c2 m1 m2
+
+/-- corollary (cost vector only): a replaced objective fully replaces the previous one -/
 theorem setObjective_replaces (cols : List WCol) (t1 t2 : List (Nat × Rat)) :
     setObjective (setObjective cols t1) t2 = setObjective cols t2 :=
   FP.setObjective_replaces cols t1 t2
@@ -110,5 +147,110 @@ theorem setObjective_replaces (cols : List WCol) (t1 t2 : List (Nat × Rat)) :
 theorem setObjective_cost (cols : List WCol) (t : List (Nat × Rat)) (i : Nat) (hi : i < cols.length) :
     ((setObjective cols t)[i]?).map (·.cost) = some ((t.filter (·.1 = i)).map (·.2)).sum :=
   FP.setObjective_cost cols t i hi
+
+/-- non-vacuity: the constant `5` and the cost of column 1 of the first objective do not survive the second
+(which has no constant term and does not mention column 1) -/
+example : let s := wrun .upper [.addVars [(0, 3), (1, 4)], .setObjective [(0, 1), (1, -1)] (some 5),
+                                .optimize, .setObjective [(0, 2), (0, 1)] none true, .addVars [(0, 1)]]
+    (s.offset, s.maximize, s.cols.map (·.cost)) = (0, true, [3, 0, 0]) := by decide +kernel
+
+/-! ### variables are column indices -/
+
+/-- `add_variables` appends columns: the `k`-th returned variable is column `numCol + k`, that column has the
+`k`-th bounds and cost `0`, and the existing columns are untouched -/
+theorem add_variables_handles (f : GetColsField) (s : WState) (bs : List (Rat × Rat)) (k : Nat)
+    (hk : k < bs.length) :
+    (addVarsHandles s bs)[k]? = some (s.cols.length + k) ∧
+    (wstep f s (.addVars bs)).cols[s.cols.length + k]? = some { lb := bs[k].1, ub := bs[k].2, cost := 0 } ∧
+    ∀ i, i < s.cols.length → (wstep f s (.addVars bs)).cols[i]? = s.cols[i]? :=
+  FP.wobj_add_variables_handles f s bs k hk
+
+/-! ### the solve of a model without rows, and what is read back -/
+
+/-- **`boxOptimum` is what a solve must return.** On a non-empty box it is an optimal solution of
+`min / max Σ cost·x + offset`, and every optimal solution agrees with it on every determined column (cost
+non-zero, or lower bound = upper bound): value `lb` where a larger value is worse, `ub` where a smaller one is. -/
+theorem box_optimum_correct (mx : Bool) (cols : List WCol) (off : Rat) (hfeas : boxFeasible cols = true) :
+    IsBoxOptimum mx cols off (boxOptimum mx cols) ∧
+    ∀ x, IsBoxOptimum mx cols off x →
+      ∀ (i : Nat) (c : WCol), cols[i]? = some c → colDetermined c = true → x[i]? = some (colOpt mx c) :=
+  FP.wobj_box_optimum_correct mx cols off hfeas
+
+/-- the model reports "infeasible" exactly for the empty box -/
+theorem box_infeasible (cols : List WCol) : boxFeasible cols = false ↔ ¬ ∃ x, InBox cols x :=
+  FP.wobj_box_infeasible cols
+
+/-- the expected read-back: the forced value of a determined column, nothing for the others -/
+theorem expectedValues_spec (mx : Bool) (cols : List WCol) (i : Nat) :
+    (expectedValues mx cols)[i]? =
+      (cols[i]?).map (fun c => if colDetermined c then some (colOpt mx c) else none) :=
+  FP.wobj_expectedValues_spec mx cols i
+
+/-- **values are read back for exactly the variables asked for**: `get_values` succeeds with `r` iff `r` has
+one entry per asked `(key, variable)` pair, in the order asked, carrying that key and the entry of the solution
+vector at the variable's column index; it fails (Python: `IndexError`) iff some asked variable's column index
+lies outside the vector. -/
+theorem get_values_exact {κ : Type} (x : List Rat) (asked : List (κ × Nat)) :
+    (∀ r : List (κ × Rat), readValues x asked = some r ↔
+      r.length = asked.length ∧
+      ∀ (p : Nat) (kv : κ × Nat) (kr : κ × Rat), asked[p]? = some kv → r[p]? = some kr →
+        kr.1 = kv.1 ∧ x[kv.2]? = some kr.2) ∧
+    (readValues x asked = none ↔ ∃ kv ∈ asked, x.length ≤ kv.2) :=
+  ⟨FP.wobj_get_values_exact x asked, FP.wobj_get_values_raises x asked⟩
+
+/-- **every `optimize` yields a fresh solution**: what the backend holds after `optimize` is the solve of the
+model as flushed by this very call; the result of an earlier solve (and the number of earlier solves) has no
+influence on it. -/
+theorem optimize_fresh (f : GetColsField) (s : WState) :
+    (wstep f s .optimize).last
+      = some (solveBox (flush f s).maximize (flush f s).cols (flush f s).offset) ∧
+    ∀ (l : Option Solve) (n : Nat),
+      (wstep f { s with last := l, nSolves := n } .optimize).last = (wstep f s .optimize).last :=
+  ⟨rfl, fun _ _ => rfl⟩
+
+/-- one read-back per `optimize` -/
+theorem wsnaps_length (f : GetColsField) (ops : List WOp) :
+    (wsnaps f ops).length = (ops.filter (·.isOptimize)).length :=
+  FP.wobj_wsnaps_length f ops
+
+/-- **the values returned after the `n`-th `optimize` are those of the `n`-th solve**: if `n` solves precede
+the `optimize` at the end of `pre`, the `n`-th (0-based) observed state has the columns, constant and sense of
+the model as this `optimize` flushed it, counts `n + 1` solves and holds the solve of exactly that model -/
+theorem readback_nth (f : GetColsField) (pre post : List WOp) :
+    ∃ sn, (wsnaps f (pre ++ WOp.optimize :: post))[(pre.filter (·.isOptimize)).length]? = some sn ∧
+      sn.cols = (flush f (wrun f pre)).cols ∧ sn.offset = (flush f (wrun f pre)).offset ∧
+      sn.maximize = (flush f (wrun f pre)).maximize ∧
+      sn.nSolves = (pre.filter (·.isOptimize)).length + 1 ∧
+      sn.last = some (solveBox (flush f (wrun f pre)).maximize (flush f (wrun f pre)).cols
+        (flush f (wrun f pre)).offset) :=
+  FP.wobj_readback_nth_full f pre post
+
+/-- … hence `get_values` / `get_objective_value` after the `n`-th `optimize` read the optimum of the box as
+it is at that `optimize` (current bounds, last objective, its constant), for any set of asked variables -/
+theorem get_values_fresh {κ : Type} (f : GetColsField) (pre post : List WOp) (asked : List (κ × Nat))
+    (sn : WState)
+    (hsn : (wsnaps f (pre ++ WOp.optimize :: post))[(pre.filter (·.isOptimize)).length]? = some sn) :
+    getValues sn asked =
+      (if boxFeasible (flush f (wrun f pre)).cols then
+        readValues (boxOptimum (flush f (wrun f pre)).maximize (flush f (wrun f pre)).cols) asked
+       else none) ∧
+    getObjectiveValue sn =
+      (if boxFeasible (flush f (wrun f pre)).cols then
+        some (objValue (flush f (wrun f pre)).cols (flush f (wrun f pre)).offset
+          (boxOptimum (flush f (wrun f pre)).maximize (flush f (wrun f pre)).cols))
+       else none) :=
+  FP.wobj_get_values_fresh f pre post asked sn hsn
+
+/-- non-vacuity / regression witness for a stale solution vector: two solves of one wrapper with a queued lower
+bound and a new objective in between; the second read-back is `[2, 1]` with objective value `4` (not the `[0, 4]`
+and `1` of the first solve), and asking for column 1 then column 0 returns exactly these two, in that order -/
+theorem readback_two_solves_witness :
+    let ops := [WOp.addVars [(0, 3), (1, 4)], .setObjective [(0, 1), (1, -1)] (some 5), .optimize,
+                .queueLb 0 2, .setObjective [(0, 2)], .optimize]
+    (wsnaps .upper ops).map (·.last) = [some (.optimal [0, 4] 1), some (.optimal [2, 1] 4)] ∧
+    (wsnaps .upper ops).map (fun s => getValues s [("b", 1), ("a", 0)])
+      = [some [("b", 4), ("a", 0)], some [("b", 1), ("a", 2)]] ∧
+    (wsnaps .upper ops).map (fun s => expectedValues s.maximize s.cols)
+      = [[some 0, some 4], [some 2, none]] := by decide +kernel
 
 end FP.Props.C12
